@@ -7,12 +7,17 @@ From Verif Require Import Model.Base Model.Ops Model.Disasm Model.Sym Model.SymT
 From Coq Require Import Lia.
 Open Scope Z_scope.
 
-(* the words observed at the state-read nodes of t, in post-order *)
-Fixpoint read_vals (rho : nat -> Z) (t : ttree) : list Z :=
+(* the words observed at the unconstrained nodes of t, in post-order: state reads, and EXP with
+   a non-literal exponent (the solver sees a fresh constant; its value in the execution is a ** b) *)
+Fixpoint read_vals (s : list Z) (rho : nat -> Z) (t : ttree) : list Z :=
   match t with
   | TNode (sy, tag) args =>
-      flat_map (read_vals rho) args
-      ++ (if read_sym sy then [match tag with Some k => rho k | None => 0 end] else [])
+      flat_map (read_vals s rho) args
+      ++ match sy with
+         | SExp => if exp_is_literal (map erase_tree args) then []
+                   else [eval_sym s SExp (map (Annot.eval_tree s rho) args)]
+         | _ => if read_sym sy then [match tag with Some k => rho k | None => 0 end] else []
+         end
   end.
 
 Definition senv_of (Wd : world) (s : list Z) (reads : list Z) : senv :=
@@ -47,7 +52,7 @@ Proof. intros E [|x r] n; reflexivity. Qed.
 
 Lemma sym_eval_node : forall E s args n,
   SymEval.eval_tree E (SNode s args) n =
-  let '(vs, n') := SymEval.eval_trees E args n in eval_node E s vs n'.
+  let '(vs, n') := SymEval.eval_trees E args n in eval_node E s (exp_is_literal args) vs n'.
 Proof. reflexivity. Qed.
 
 Lemma nth_word : forall (s : list Z) i, Forall is_word s -> is_word (nth i s 0).
@@ -57,13 +62,16 @@ Proof.
   - rewrite nth_overflow by exact L. unfold is_word, W. lia.
 Qed.
 
+Lemma sym_eq_exp : forall sy : sym, sy = SExp \/ sy <> SExp.
+Proof. intros sy. destruct sy; (left; reflexivity) || (right; discriminate). Qed.
+
 Theorem bridge : forall Wd s rho tr,
   consistent Wd rho tr -> words s rho ->
   forall t, reads_ok s rho tr t -> wf_tree (erase_tree t) = true ->
   forall E n, senv_matches Wd s E ->
-    (forall i, (i < length (read_vals rho t))%nat -> se_read E (n + i) = nth i (read_vals rho t) 0) ->
+    (forall i, (i < length (read_vals s rho t))%nat -> se_read E (n + i) = nth i (read_vals s rho t) 0) ->
     SymEval.eval_tree E (erase_tree t) n
-    = (Annot.eval_tree s rho t, (n + length (read_vals rho t))%nat).
+    = (Annot.eval_tree s rho t, (n + length (read_vals s rho t))%nat).
 Proof.
   intros Wd s rho tr Hc [Hs Hrho].
   induction t as [[sy tag] args IH] using ttree_ind'.
@@ -75,10 +83,10 @@ Proof.
   cbn [read_vals] in Hread. rewrite app_length in Hread.
   (* the arguments *)
   assert (A : forall n0,
-             (forall i, (i < length (flat_map (read_vals rho) args))%nat ->
-                        se_read E (n0 + i) = nth i (flat_map (read_vals rho) args) 0) ->
+             (forall i, (i < length (flat_map (read_vals s rho) args))%nat ->
+                        se_read E (n0 + i) = nth i (flat_map (read_vals s rho) args) 0) ->
              SymEval.eval_trees E (map erase_tree args) n0
-             = (map (Annot.eval_tree s rho) args, (n0 + length (flat_map (read_vals rho) args))%nat)).
+             = (map (Annot.eval_tree s rho) args, (n0 + length (flat_map (read_vals s rho) args))%nat)).
   { clear Hread Htag Har. induction args as [|x xs IHxs]; intros n0 Hrd.
     - cbn. f_equal. lia.
     - inversion IH as [|? ? Hx Hxs]; subst. inversion Hargs as [|? ? Rx Rxs]; subst.
@@ -86,15 +94,15 @@ Proof.
       cbn [map flat_map] in *. rewrite eval_trees_eq. rewrite app_length in Hrd.
       rewrite (Hx Rx Wx E n0 HE).
       2:{ intros i Hi. rewrite (Hrd i) by lia. now rewrite app_nth1. }
-      rewrite (IHxs Hxs Rxs Wxs (n0 + length (read_vals rho x))%nat).
-      2:{ intros i Hi. replace (n0 + length (read_vals rho x) + i)%nat with (n0 + (length (read_vals rho x) + i))%nat by lia.
-          rewrite (Hrd (length (read_vals rho x) + i)%nat) by lia.
+      rewrite (IHxs Hxs Rxs Wxs (n0 + length (read_vals s rho x))%nat).
+      2:{ intros i Hi. replace (n0 + length (read_vals s rho x) + i)%nat with (n0 + (length (read_vals s rho x) + i))%nat by lia.
+          rewrite (Hrd (length (read_vals s rho x) + i)%nat) by lia.
           rewrite app_nth2 by lia. f_equal. lia. }
       rewrite app_length. f_equal. lia. }
   rewrite A.
   2:{ intros i Hi. rewrite (Hread i) by lia. now rewrite app_nth1. }
   clear A IH.
-  set (m := length (flat_map (read_vals rho) args)) in *.
+  set (m := length (flat_map (read_vals s rho) args)) in *.
   destruct HE as (Ev & Ee & Ecd & Ebh).
   destruct tag as [k|].
   - (* a node created by a state-reading instruction *)
@@ -111,7 +119,17 @@ Proof.
     + (* blockhash *) rewrite <- (Cbh eq_refl), Hw. f_equal. lia.
   - (* computed *)
     cbn [Annot.eval_tree].
-    destruct sy; try discriminate Htag; cbn [eval_node read_sym env_sym eval_sym read_vals sym_pure];
+    destruct (sym_eq_exp sy) as [->|Hne].
+    { (* exp *)
+      cbn [children] in Har.
+      destruct args as [|a0 [|a1 [|? ?]]]; try discriminate Har.
+      cbn [eval_node read_vals] in *. fold m in Hread |- *.
+      destruct (exp_is_literal (map erase_tree [a0; a1])).
+      - rewrite app_nil_r. cbn [map nth eval_sym sym_pure pure_apply op2]. fold m. reflexivity.
+      - rewrite app_length. cbn [length]. rewrite (Hread m) by (cbn [length]; lia).
+        rewrite app_nth2 by (fold m; lia). fold m. rewrite Nat.sub_diag. cbn [nth map eval_sym sym_pure pure_apply op2].
+        f_equal; [|lia]. unfold evm_exp, wrap. apply Z.mod_mod. unfold W. lia. }
+    destruct sy; try congruence; try discriminate Htag; cbn [eval_node read_sym env_sym eval_sym read_vals sym_pure];
       rewrite app_length; cbn [length]; fold m; rewrite !Nat.add_0_r;
       try (f_equal; symmetry; apply pure_apply_evm_pure; [reflexivity|rewrite map_length; symmetry; exact Har]).
     + (* const *) cbn [wf_sym] in Hsy. apply andb_prop in Hsy as [L H]. f_equal.
